@@ -1,9 +1,14 @@
 /-
 Property theorems for RobotWarehouse (R model: the resampled request ids are a draw `d`; every
-theorem holds for ALL draws).  Proofs in Env/RobotWarehouse/Lemmas.lean.
+theorem holds for ALL draws).  Proofs in Env/RobotWarehouse/{Lemmas,PictureLemmas,MaskLemmas,StepLemmas,
+QueueLemmas,ConsistentLemmas,NoopLemmas,ObsLemmas}.lean.
 -/
 import JumanjiModel.Env.RobotWarehouse.Lemmas
 import JumanjiModel.Env.RobotWarehouse.Bounds
+import JumanjiModel.Env.RobotWarehouse.MaskLemmas
+import JumanjiModel.Env.RobotWarehouse.NoopLemmas
+import JumanjiModel.Env.RobotWarehouse.ConsistentLemmas
+import JumanjiModel.Env.RobotWarehouse.ObsLemmas
 open Jm RobotWarehouse
 
 namespace Props.C04
@@ -24,6 +29,33 @@ def rwareWitCfg : Cfg := { timeLimit := 10, sensorRange := 1, highways := [[fals
 /-- on the witness the L1 mask, the cached mask and the rules agree: only FORWARD is illegal -/
 example : computeMask rwareWit.shelfGrid rwareWit.agents = rwareWit.mask ∧ legalMask rwareWit = rwareWit.mask ∧ ¬ legal rwareWit 0 1 := by decide
 example : Consistent rwareWitCfg rwareWit := by decide
+
+/-- C04 (full strength, all states / sizes / agents): under `Consistent`, for every agent and every action
+the L1 `compute_action_mask` bit equals L2 `legal` read from the entity tables -/
+theorem rware_mask_iff_legal (cfg : Cfg) (s : State) (hc : Consistent cfg s) (i a : Nat)
+    (hi : i < s.agents.length) (ha : a < 5) :
+    ((computeMask s.shelfGrid s.agents).getD i []).getD a false = true ↔ legal s i a :=
+  RobotWarehouse.mask_iff_legal hc hi ha
+
+/-- the same as one equation between the two `(num_agents, 5)` tables -/
+theorem rware_mask_eq_legalMask (cfg : Cfg) (s : State) (hc : Consistent cfg s) :
+    computeMask s.shelfGrid s.agents = legalMask s := RobotWarehouse.mask_eq_legalMask hc
+
+/-- … and hence for the cached `action_mask` carried in the state (and copied into the observation) -/
+theorem rware_cached_mask_iff_legal (cfg : Cfg) (s : State) (hc : Consistent cfg s) (i a : Nat)
+    (hi : i < s.agents.length) (ha : a < 5) :
+    ((s.mask).getD i []).getD a false = true ↔ legal s i a := by
+  rw [((consistent_iff_good cfg s).1 hc).mask]
+  exact RobotWarehouse.mask_iff_legal hc hi ha
+
+/-- a 2×3 floor with two agents: agent 0 carries the requested shelf 0 and has the goal cell in front -/
+def rwareWit2 : State :=
+  { shelfGrid := [[1, 0, 0], [0, 0, 2]], agentGrid := [[1, 0, 0], [2, 0, 0]],
+    agents := [⟨0, 0, 1, true⟩, ⟨1, 0, 0, false⟩], shelves := [⟨0, 0, 1⟩, ⟨1, 2, 0⟩], queue := [0],
+    stepCount := 0, mask := [[true, true, true, true, true], [true, true, true, true, true]] }
+def rwareWit2Cfg : Cfg :=
+  { timeLimit := 10, sensorRange := 1, highways := [[false, true, false], [true, true, false]], goals := [(1, 0)] }
+example : Consistent rwareWit2Cfg rwareWit2 := by decide
 end Props.C04
 
 namespace Props.C05
@@ -43,15 +75,112 @@ theorem rware_illegal_drops_shelf_witness :
     ¬ legal Props.C04.rwareWit 0 1 ∧
     ((step Props.C04.rwareWitCfg Props.C04.rwareWit [1] []).1.agents.map (·.carrying)) = [false] ∧
     (step Props.C04.rwareWitCfg Props.C04.rwareWit [1] []).2.stepType = .mid := by decide
+
+/-- C05 (strengthening of `rware_illegal_is_noop_partial`, all worlds): the no-op played for agent `i`
+leaves both floor channels, the shelf table and every other agent untouched; agent `i` keeps cell and
+direction, and its flag becomes exactly `is_carrying && on_highway(cell)` -/
+theorem rware_illegal_is_noop (hw : List (List Bool)) (w : World) (i : Nat) (ag : Agent)
+    (hi : w.agents[i]? = some ag) :
+    (updateAgent hw w 0 i).shelfGrid = w.shelfGrid ∧ (updateAgent hw w 0 i).agentGrid = w.agentGrid ∧
+    (updateAgent hw w 0 i).shelves = w.shelves ∧
+    (∀ (j : Nat), j ≠ i → (updateAgent hw w 0 i).agents[j]? = w.agents[j]?) ∧
+    (updateAgent hw w 0 i).agents[i]? =
+      some { ag with carrying := ag.carrying && Jx.Grid.getWC hw false ag.x ag.y } :=
+  RobotWarehouse.noop_agent hw w hi
+
+/-- RW1 characterised exactly: the no-op changes `is_carrying` iff the agent carries a shelf and does NOT
+stand on a highway cell (then the shelf is offloaded) -/
+theorem rware_noop_drops_iff (hw : List (List Bool)) (w : World) (i : Nat) (ag : Agent)
+    (hi : w.agents[i]? = some ag) :
+    (((updateAgent hw w 0 i).agents.getD i default).carrying ≠ ag.carrying) ↔
+      (ag.carrying = true ∧ Jx.Grid.getWC hw false ag.x ag.y = false) :=
+  RobotWarehouse.noop_drops_iff hw w hi
+
+/-- in all other cases (not carrying, or standing on a highway cell) the holdings are kept: the whole agent
+table is unchanged -/
+theorem rware_noop_keeps (hw : List (List Bool)) (w : World) (i : Nat) (ag : Agent)
+    (hi : w.agents[i]? = some ag)
+    (h : ag.carrying = false ∨ Jx.Grid.getWC hw false ag.x ag.y = true) :
+    (updateAgent hw w 0 i).agents = w.agents := RobotWarehouse.noop_keeps hw w hi h
+
+/-- the same through the whole `step` (ALL states, joint actions, draws): an agent whose action is masked
+out by the cached mask ends the step on its cell, facing the same way, with
+`is_carrying' = is_carrying && on_highway(cell)` — whatever the other agents do -/
+theorem rware_masked_step_agent (cfg : Cfg) (s : State) (actions draws : List Int) (i : Nat) (ag : Agent)
+    (a : Int) (row : List Bool) (hi : s.agents[i]? = some ag) (ha : actions[i]? = some a)
+    (hrow : s.mask[i]? = some row) (hm : Jx.getWC row false a = false) :
+    (step cfg s actions draws).1.agents[i]? =
+      some { ag with carrying := ag.carrying && Jx.Grid.getWC cfg.highways false ag.x ag.y } :=
+  RobotWarehouse.step_masked_agent cfg s actions draws hi ha hrow hm
+
+/-- under `Consistent`, for an action that is illegal by the RULES (L2): it is a FORWARD of a carrying
+agent, the agent is frozen, and it still carries after the step iff its cell is a highway cell -/
+theorem rware_illegal_step_agent (cfg : Cfg) (s : State) (hc : Consistent cfg s) (actions draws : List Int)
+    (i a : Nat) (ag : Agent) (hi : s.agents[i]? = some ag) (ha : actions[i]? = some (a : Int)) (ha5 : a < 5)
+    (hill : ¬ legal s i a) :
+    ag.carrying = true ∧ a = 1 ∧
+    (step cfg s actions draws).1.agents[i]? =
+      some { ag with carrying := Jx.Grid.getWC cfg.highways false ag.x ag.y } :=
+  RobotWarehouse.step_illegal_agent hc actions draws hi ha ha5 hill
+
+/-- the hypotheses are satisfiable, in both branches: on the witness (cell not a highway) the shelf is
+dropped, with the agent's cell made a highway cell it is kept -/
+example : Consistent Props.C04.rwareWitCfg Props.C04.rwareWit ∧ ¬ legal Props.C04.rwareWit 0 1 ∧
+    (step Props.C04.rwareWitCfg Props.C04.rwareWit [1] []).1.agents = [⟨0, 0, 1, false⟩] ∧
+    (step { Props.C04.rwareWitCfg with highways := [[true, false, true]] } Props.C04.rwareWit [1] []).1.agents
+      = [⟨0, 0, 1, true⟩] := by decide
 end Props.C05
 
 namespace Props.C07
 /-- conserved for ALL states, actions and draws: the number of shelves, of agents and of request
-slots (the floor-picture count is checked on implementation states by `Conserved`) -/
+slots (unconditional part; the floor-picture count is `rware_conserved` / `rware_floor_counts` below) -/
 theorem rware_conserved_partial (cfg : Cfg) (s : State) (a d : List Int) :
     (step cfg s a d).1.shelves.length = s.shelves.length ∧
     (step cfg s a d).1.agents.length = s.agents.length ∧
     (step cfg s a d).1.queue.length = s.queue.length := RobotWarehouse.step_lengths cfg s a d
+
+/-- the draw `d` lies in the support of the request-queue resampling for the joint action `a` in state `s`
+(exactly the test the driver's `step` op applies): whenever a goal fires, the new id is a shelf id that
+is not in the queue -/
+def rwareValidDraw (cfg : Cfg) (s : State) (a d : List Int) : Prop :=
+  validDraws (scanAgents cfg.highways s.world (validActions s.mask a) 0).shelfGrid
+    ⟨s.queue, (scanAgents cfg.highways s.world (validActions s.mask a) 0).shelves, 0⟩ cfg.goals d = true
+
+instance (cfg : Cfg) (s : State) (a d : List Int) : Decidable (rwareValidDraw cfg s a d) := by
+  unfold rwareValidDraw; infer_instance
+
+/-- C07 (full strength): from a `Consistent` state, ANY joint action `a` (any integers, any length — masked-out
+entries are played as NOOP by `step` itself) and any draw in the support lead to a `Consistent` state,
+unless the step is LAST (collision, or time limit reached) -/
+theorem rware_step_consistent (cfg : Cfg) (s : State) (a d : List Int) (hc : Consistent cfg s)
+    (hv : rwareValidDraw cfg s a d) (hn : (step cfg s a d).2.stepType ≠ .last) :
+    Consistent cfg (step cfg s a d).1 := RobotWarehouse.step_consistent hc a d hv hn
+
+/-- the floor picture of a `Consistent` state shows exactly as many shelves as the shelf table holds, and
+exactly as many agents as the agent table holds -/
+theorem rware_floor_counts (cfg : Cfg) (s : State) (hc : Consistent cfg s) :
+    shelfCount s.shelfGrid = s.shelves.length ∧
+    Jx.Grid.count (fun v => decide (v ≠ 0)) s.agentGrid = s.agents.length :=
+  RobotWarehouse.consistent_counts hc
+
+/-- C07 (conserved, floor-picture level): across such a step the predicate `Conserved` evaluated by the
+driver holds (shelf table length, number of shelves ON THE FLOOR PICTURE, agent table length, queue
+length), and the number of agents on the floor picture is unchanged too -/
+theorem rware_conserved (cfg : Cfg) (s : State) (a d : List Int) (hc : Consistent cfg s)
+    (hv : rwareValidDraw cfg s a d) (hn : (step cfg s a d).2.stepType ≠ .last) :
+    Conserved s (step cfg s a d).1 ∧
+    Jx.Grid.count (fun v => decide (v ≠ 0)) (step cfg s a d).1.agentGrid =
+      Jx.Grid.count (fun v => decide (v ≠ 0)) s.agentGrid :=
+  RobotWarehouse.step_conserved hc a d hv hn
+
+/-- the hypotheses are satisfiable by a step that does something: agent 0 carries shelf 0 onto the goal
+(delivery, shelf 1 becomes the new request), agent 1 turns -/
+example : Consistent Props.C04.rwareWit2Cfg Props.C04.rwareWit2 ∧
+    rwareValidDraw Props.C04.rwareWit2Cfg Props.C04.rwareWit2 [1, 2] [1] ∧
+    (step Props.C04.rwareWit2Cfg Props.C04.rwareWit2 [1, 2] [1]).2.stepType ≠ .last ∧
+    (step Props.C04.rwareWit2Cfg Props.C04.rwareWit2 [1, 2] [1]).1.queue = [1] ∧
+    (step Props.C04.rwareWit2Cfg Props.C04.rwareWit2 [1, 2] [1]).1.shelfGrid = [[0, 1, 0], [0, 0, 2]] := by
+  decide
 end Props.C07
 
 namespace Props.C11
@@ -64,8 +193,9 @@ end Props.C11
 namespace Props.C12
 /-- (partial: copied fields) the observation carries the successor's own mask and step count, the
 cached mask is recomputed from the successor's floor, and the sensor vectors are computed from
-the successor (not the predecessor) world.  `makeObservations = observe` (L1 = L2 sensors) is
-checked by the driver on every consistent implementation state, not proved. -/
+the successor (not the predecessor) world.  `makeObservations = observe` (L1 = L2 sensors) on every
+consistent state is `rware_obs_faithful` below (and is also evaluated by the driver on every consistent
+implementation state). -/
 theorem rware_obs_copied_partial (cfg : Cfg) (s : State) (a d : List Int) :
     (step cfg s a d).2.obs.mask = (step cfg s a d).1.mask ∧
     (step cfg s a d).2.obs.stepCount = (step cfg s a d).1.stepCount ∧
@@ -76,6 +206,40 @@ theorem rware_obs_copied_partial (cfg : Cfg) (s : State) (a d : List Int) :
 /-- on the witness state the L1 sensor vector equals the documented (table-based) one -/
 example : makeObservations Props.C04.rwareWitCfg Props.C04.rwareWit.world =
     (observe Props.C04.rwareWitCfg Props.C04.rwareWit).view := by decide
+
+/-- C12 (full strength, all sizes and sensor ranges): on every `Consistent` state the L1 sensor vectors
+(`make_agent_observation`, with the clamping of `dynamic_update_slice` and the clamped windows of the
+padded channels) equal the documented table-based ones: an entity is reported iff it lies inside the
+agent's sensor window, at the slot of its shifted position -/
+theorem rware_obs_faithful (cfg : Cfg) (s : State) (hc : Consistent cfg s) :
+    makeObservations cfg s.world = (observe cfg s).view := RobotWarehouse.obs_faithful hc
+
+/-- reset: the whole observation built from a consistent generated state is the documented one -/
+theorem rware_reset_obs_faithful (cfg : Cfg) (s : State) (hc : Consistent cfg s) :
+    resetObs cfg s = observe cfg s := by
+  unfold resetObs observe
+  rw [RobotWarehouse.obs_faithful hc, ((consistent_iff_good cfg s).1 hc).mask,
+    RobotWarehouse.mask_eq_legalMask hc]
+  rfl
+
+/-- step: the whole observation emitted by a non-LAST step from a consistent state (any joint action, any
+draw in the support) is the documented observation of the successor state.  (On a LAST step caused by
+a collision this is false: known finding RW2.) -/
+theorem rware_step_obs_faithful (cfg : Cfg) (s : State) (a d : List Int) (hc : Consistent cfg s)
+    (hv : Props.C07.rwareValidDraw cfg s a d) (hn : (step cfg s a d).2.stepType ≠ .last) :
+    (step cfg s a d).2.obs = observe cfg (step cfg s a d).1 := by
+  have hc' := RobotWarehouse.step_consistent hc a d hv hn
+  have h := RobotWarehouse.obs_copied cfg s a d
+  have h1 := RobotWarehouse.obs_faithful hc'
+  have h2 := RobotWarehouse.mask_eq_legalMask hc'
+  generalize (step cfg s a d).2.obs = o at h
+  generalize (step cfg s a d).1 = s' at h h1 h2
+  obtain ⟨v, m, c⟩ := o
+  obtain ⟨e1, e2, e3, e4⟩ := h
+  simp only [] at e1 e2 e4
+  unfold observe
+  rw [e1, e2, e4, e3, h1, h2]
+  rfl
 end Props.C12
 
 namespace Props.C01
